@@ -13,7 +13,7 @@ ASSUMPTIONS = [
 ]
 RULE = ("all per-variable bound-pattern assignments {free, lower, upper, wide, narrower than radius_init, fixed, "
         "fixed within rounding}^n x x0 {inside, on a bound, outside} x objective {quadratic with interior / exterior "
-        "minimiser, linear, non-smooth, NaN region} x constraints {none, linear, ball <=, ball =, cubic <= (many "
+        "minimiser, linear, non-smooth, noisy, NaN region} x constraints {none, linear, ball <=, ball =, cubic <= (many "
         "second-order-correction steps)} x scale x nb_points {n+1, 2n+1, full}, fault-free; plus one NaN/inf deviation "
         "at every evaluation on a slice (everywhere in thorough). Non-trivial = run with a trial point within 1e-9 of a "
         "bound; distinct = distinct bit-exact observation.")
@@ -37,7 +37,8 @@ def roots(tier, seed):
             nf = sum(1 for p in pats if p not in alpha.FIXED_PATS)
             npts_all = sorted({nf + 1, 2 * nf + 1, (nf + 1) * (nf + 2) // 2})
             for where in ["in", "on", "out"]:
-                for obj, nan in [("quad", None), ("quad_far", None), ("lin", None), ("abs", None), ("quad", "half")]:
+                for obj, nan in [("quad", None), ("quad_far", None), ("lin", None), ("abs", None), ("noisy", None),
+                                 ("quad", "half")]:
                     for cons in ["none", "lin_le", "ball_le", "ball_eq", "cubic_le", "lin+cubic"]:
                         for scale in ([False, True] if finite else [False]):
                             for npt in npts_all:
@@ -48,7 +49,9 @@ def roots(tier, seed):
                                     continue
                                 if nan and cons in ("lin_le", "ball_eq", "lin+cubic"):
                                     continue
-                                if n == 3 and (where == "on" or obj in ("abs",) or npt != 2 * nf + 1):
+                                if obj == "noisy" and (cons not in ("none", "ball_le") or npt != 2 * nf + 1):
+                                    continue
+                                if n == 3 and (where == "on" or obj in ("abs", "noisy") or npt != 2 * nf + 1):
                                     continue
                                 opts = {"scale": scale, "nb_points": npt}
                                 opts["maxfev"] = (30 * n + 10) if tier == "quick" else 120 * n
